@@ -39,7 +39,7 @@ BUILDER_INVS = ["C09_Faithful", "C09_Expected", "C09_BuildDefects", "C04_Valid",
 def builder_suite(shape):
     base = dict(SHAPE='"%s"' % shape, ORDER='"code"', HIST="FALSE", DEPTH=0)
     return dict(module="MC_Builder", kind="bfs", spec="Spec", invariants=BUILDER_INVS, constraints=["Small"], replay=["--serde"],
-                quick=dict(base, SIZE='"q"', K=2, CK=1), thorough=dict(base, SIZE='"t"', K=3, CK=1),
+                quick=dict(base, SIZE='"q"', K=2, CK=1), thorough=dict(base, SIZE='"t"', K=2, CK=1),
                 describe="all builder states with at most K optional fields set over a small universe x every setter "
                          "(one case per transition) and build() from every state (4-step pipeline)")
 
